@@ -275,9 +275,16 @@ var rR17 = RuleRef{Name: "R17", Doc: "guarded shared state: every access to Chan
 		return
 	}
 	// entry lock classes of helpers = intersection over static call sites
-	entryMemo := map[*ssa.Function]map[string]string{}
-	var entryClasses func(fn *ssa.Function, depth int) map[string]string
-	heldClasses := func(fn *ssa.Function, in ssa.Instruction, depth int) map[string]string {
+	type entryKey struct {
+		fn  *ssa.Function
+		blk *ssa.BasicBlock
+	}
+	entryMemo := map[entryKey]map[string]string{}
+	// relevant: the blocks of fn one of which must be reachable (with the constant arguments of a call) for that call to
+	// matter; nil = every call matters
+	var entryClasses func(fn *ssa.Function, depth int, relevant []*ssa.BasicBlock) map[string]string
+	var heldClassesFor func(fn *ssa.Function, in ssa.Instruction, depth int, relevant []*ssa.BasicBlock) map[string]string
+	heldClassesFor = func(fn *ssa.Function, in ssa.Instruction, depth int, relevant []*ssa.BasicBlock) map[string]string {
 		out := map[string]string{}
 		held, _ := la.flow(fn).Held(in)
 		for _, h := range held {
@@ -285,18 +292,26 @@ var rR17 = RuleRef{Name: "R17", Doc: "guarded shared state: every access to Chan
 				out[h.Class] = h.Mode
 			}
 		}
-		for cl, m := range entryClasses(fn, depth+1) {
+		for cl, m := range entryClasses(fn, depth+1, relevant) {
 			if m == "W" || out[cl] == "" {
 				out[cl] = m
 			}
 		}
 		return out
 	}
-	entryClasses = func(fn *ssa.Function, depth int) map[string]string {
-		if r, ok := entryMemo[fn]; ok {
+	heldClasses := func(fn *ssa.Function, in ssa.Instruction, depth int) map[string]string {
+		return heldClassesFor(fn, in, depth, []*ssa.BasicBlock{in.Block()})
+	}
+	entryClasses = func(fn *ssa.Function, depth int, relevant []*ssa.BasicBlock) map[string]string {
+		var first *ssa.BasicBlock
+		if len(relevant) > 0 {
+			first = relevant[0]
+		}
+		mk := entryKey{fn, first}
+		if r, ok := entryMemo[mk]; ok {
 			return r
 		}
-		entryMemo[fn] = map[string]string{}
+		entryMemo[mk] = map[string]string{}
 		if depth > 3 {
 			return nil
 		}
@@ -310,6 +325,19 @@ var rR17 = RuleRef{Name: "R17", Doc: "guarded shared state: every access to Chan
 							res = map[string]string{}
 							found = true
 							continue
+						}
+						// a helper steered by a flag: a call whose literal arguments keep it away from the access does not count
+						if ca := constArgs(ci); len(ca) > 0 && len(relevant) > 0 {
+							reach := prunedReach(fn, ca)
+							hits := false
+							for _, rb := range relevant {
+								if reach[rb] {
+									hits = true
+								}
+							}
+							if !hits {
+								continue
+							}
 						}
 						h := heldClasses(g, in, depth)
 						if !found {
@@ -332,7 +360,7 @@ var rR17 = RuleRef{Name: "R17", Doc: "guarded shared state: every access to Chan
 		if !found || fn.Object() != nil && fn.Object().Exported() && false {
 			res = map[string]string{}
 		}
-		entryMemo[fn] = res
+		entryMemo[mk] = res
 		return res
 	}
 	nAcc := 0
@@ -347,14 +375,17 @@ var rR17 = RuleRef{Name: "R17", Doc: "guarded shared state: every access to Chan
 		}
 		// does fn (directly) update ChanMap.item?
 		writesItem := false
+		var writeBlocks []*ssa.BasicBlock
 		for _, b := range fn.Blocks {
 			for _, in := range b.Instrs {
 				if ci, ok := in.(ssa.CallInstruction); ok {
 					if cf := callee(ci); cf != nil && isMethodOf(cf, c.Facts.CMap, "Set", "Delete", "SetIfExist", "SetIfNotExist") && isFieldLoad(ci.Common().Args[0], chanMapT, "item") {
 						writesItem = true
+						writeBlocks = append(writeBlocks, b)
 					}
 					if cf := callee(ci); cf != nil && isMethodOf(cf, chanMapT, "Create") {
 						writesItem = true
+						writeBlocks = append(writeBlocks, b)
 					}
 				}
 			}
@@ -410,7 +441,12 @@ var rR17 = RuleRef{Name: "R17", Doc: "guarded shared state: every access to Chan
 					if !isWrite && !writesItem {
 						continue // a lone lookup is atomic inside ConcurrentMap
 					}
-					h := heldClasses(fn, in, 0)
+					// a lookup is part of a lookup-then-update sequence only in the calls that can reach the update
+					rel := []*ssa.BasicBlock{in.Block()}
+					if !isWrite {
+						rel = writeBlocks
+					}
+					h := heldClassesFor(fn, in, 0, rel)
 					if m, ok := h["ChanMap.rw"]; !ok || m != "W" {
 						bad = append(bad, c.pos(in.Pos())+": ChanMap.item."+cf.Name()+" in a lookup-then-update sequence without ChanMap.rw held for writing")
 					}
